@@ -90,18 +90,22 @@ def d1_export(chk, repo):
         okg, det = v.guard(text, exc=("TypeError",), before=st)
         chk.ob(f"field.Field.to_xarray::refuses::{key}", okg, "C17.D1", det, v.f)
     at = kw.get("attrs")
-    ca = decode_call(v.ctx, at) if at is not None else None
+    from ..lib import mapping_entries
+    ents = {}
+    for k_, v_, c_ in (mapping_entries(v.ctx, at) if at is not None else []):
+        hk = v.ctx.head_of(k_)
+        if hk and hk[0] == "str" and not c_:
+            ents[hk[1]] = v_
     want = {"cell": "self.mesh.cell", "pmin": "self.mesh.region.pmin", "pmax": "self.mesh.region.pmax", "nvdim": "self.nvdim",
             "tolerance_factor": "self.mesh.region.tolerance_factor"}
-    oka = bool(ca and ca[0] == "dict" and all(k in ca[2] and v.eq(ca[2][k], v.spec(s_)) for k, s_ in want.items()) and "units" in ca[2])
+    oka = bool(ents) and all(k in ents and v.eq(ents[k], v.spec(s_)) for k, s_ in want.items()) and "units" in ents
     chk.ob("field.Field.to_xarray::attributes", oka, "C17.D1",
-           f"attrs {sorted(ca[2]) if ca else None}; expected units, cell, pmin, pmax, nvdim, tolerance_factor from the field", v.f, st)
-    if ca and "units" in ca[2]:
+           f"attrs {sorted(ents) if ents else None}; expected units, cell, pmin, pmax, nvdim, tolerance_factor from the field", v.f, st)
+    if "units" in ents:
         # `unit or self.unit`: the explicit argument wins, otherwise the field's unit
-        src = [n for n in ast.walk(st.value) if isinstance(n, ast.keyword) and n.arg == "units"]
-        oku = bool(src) and isinstance(src[0].value, ast.BoolOp) and isinstance(src[0].value.op, ast.Or) and \
-            ast.unparse(src[0].value.values[0]) == "unit" and ast.unparse(src[0].value.values[-1]) == "self.unit"
-        chk.ob("field.Field.to_xarray::unit-attribute", oku, "C17.D1", "units attribute must be `unit or self.unit`", v.f, st)
+        oku = v.eq(ents["units"], v.spec("unit or self.unit"))
+        chk.ob("field.Field.to_xarray::unit-attribute", oku, "C17.D1",
+               f"units attribute is {v.show(ents['units'])[:80]}; must be `unit or self.unit`", v.f, st)
     # per-dimension units
     oku = False
     for s in v.stmts():
@@ -126,8 +130,8 @@ def d1_export(chk, repo):
         if isinstance(n, ast.Subscript) and isinstance(n.value, ast.Attribute) and n.value.attr == "attrs" and \
                 isinstance(n.slice, ast.Constant) and ast.unparse(n.value.value) == "xa":
             read.add(n.slice.value)
-    chk.ob("field.Field::xarray-attribute-names-agree", bool(ca) and read <= set(ca[2]) and len(read) >= 4, "C17.D1",
-           f"from_xarray reads attrs {sorted(read)}; to_xarray writes {sorted(ca[2]) if ca else None}", r.f)
+    chk.ob("field.Field::xarray-attribute-names-agree", bool(ents) and read <= set(ents) and len(read) >= 4, "C17.D1",
+           f"from_xarray reads attrs {sorted(read)}; to_xarray writes {sorted(ents) if ents else None}", r.f)
 
 
 def d2_refusals(chk, repo):
